@@ -71,19 +71,35 @@ def strip_lean_comments(src):
     return ''.join(out)
 
 
-def lean_sources():
-    res = []
-    for root in ('PMV', 'Driver'):
-        for d, _, fs in os.walk(os.path.join(LEAN, root)):
-            for f in fs:
-                if f.endswith('.lean'):
-                    res.append(os.path.join(d, f))
-    return sorted(res)
+def lean_sources(roots=None):
+    """the Lean files of the project; with `roots` (module names) only their transitive import closure"""
+    if roots is None:
+        res = []
+        for root in ('PMV', 'Driver'):
+            for d, _, fs in os.walk(os.path.join(LEAN, root)):
+                for f in fs:
+                    if f.endswith('.lean'):
+                        res.append(os.path.join(d, f))
+        return sorted(res)
+    seen, todo = set(), list(roots)
+    while todo:
+        m = todo.pop()
+        if m in seen:
+            continue
+        path = os.path.join(LEAN, m.replace('.', '/') + '.lean')
+        if not os.path.exists(path):
+            continue
+        seen.add(m)
+        for line in strip_lean_comments(open(path).read()).splitlines():
+            mm = re.match(r'\s*(?:public\s+)?import\s+(?:all\s+)?((?:PMV|Driver)\.[\w.]+)', line)
+            if mm:
+                todo.append(mm.group(1))
+    return sorted(os.path.join(LEAN, m.replace('.', '/') + '.lean') for m in seen)
 
 
-def grep_forbidden():
+def grep_forbidden(roots=None):
     hits = []
-    for p in lean_sources():
+    for p in lean_sources(roots):
         if '/Audit/' in p:
             continue
         s = strip_lean_comments(open(p).read())
